@@ -25,13 +25,21 @@ let cc inp impl =
     (m, p)
   | _ -> failwith "cc: bad input"
 
-(* server session:  end chunks script   ->   events *)
+(* server session:  end chunks script   ->   events
+   (the scripted handler is the extracted Model/ScriptHandler.v) *)
+let beh_of_tok t = match t with
+  | "ok" -> ShOk | "short" -> ShShort | "long" -> ShLong | "nil" -> ShNil
+  | "eproto" -> ShProto | "eother" -> ShOther
+  | s when String.length s > 1 && s.[0] = 'e' ->
+    ShErr (n_of_int (int_of_string (String.sub s 1 (String.length s - 1))))
+  | _ -> ShOk
+
 let srv inp impl =
   match inp with
   | [send; chunks; script] ->
     let stream = List.concat (chunks_of chunks) in
-    let sc = if script = "-" then [||] else Array.of_list (String.split_on_char ',' script) in
-    let evs = server_run (script_handler sc) 0 (send_of send) stream in
+    let sc = if script = "-" then [] else List.map beh_of_tok (String.split_on_char ',' script) in
+    let evs = sh_run sc (send_of send) stream in
     let m = String.concat ";" (List.map event_str evs) in
     (m, if m = impl then "1" else "0")
   | _ -> failwith "srv: bad input"
